@@ -500,6 +500,12 @@ def mutations(t, rng):
             edits.append(('wrong-container', lambda n: list(n.items())))
         elif isinstance(node, list):
             edits.append(('add-element', lambda n: n + [object_of_odd_type()]))
+            if any(_equal_twin(x) is not None for x in node):
+                # an element EQUAL to an earlier one (same hash) but of another type: 1 -> 1.0, True -> 1, 2.0 -> 2, (1, 2) -> (1.0, 2)
+                edits.append(('add-equal-element-of-other-type',
+                              lambda n: n + [_equal_twin(next(x for x in n if _equal_twin(x) is not None))]))
+                edits.append(('prepend-equal-element-of-other-type',
+                              lambda n: [_equal_twin(next(x for x in n if _equal_twin(x) is not None))] + n))
             if node:
                 edits.append(('drop-element', lambda n: n[:-1]))
             edits.append(('wrong-container', lambda n: tuple(n)))
@@ -521,6 +527,18 @@ def mutations(t, rng):
             except TypeError:
                 pass
     return out
+
+
+def _equal_twin(x):
+    if isinstance(x, bool):
+        return int(x)
+    if isinstance(x, int):
+        return float(x) if abs(x) < 2 ** 50 else None
+    if isinstance(x, float) and x == int(x):
+        return int(x)
+    if isinstance(x, tuple) and x and _equal_twin(x[0]) is not None and not isinstance(x[0], tuple):
+        return (_equal_twin(x[0]),) + x[1:]
+    return None
 
 
 def object_of_odd_type():
